@@ -18,6 +18,7 @@ TREE = [[b"SECRET", 0, b"top-secret"], [b"p/SECRET2", 0, b"s2"], [b"p/q/root/a.t
 ROOTS = [b"@BASE@/p/q/root", b"@BASE@/p/q/root/", b"@BASE@/p/./q/root2/../root", b"@CWD@/p/q/root"]
 SEGS = [b"a.txt", b"sub", b"deep", b"b.txt", b".", b"..", b"", b"%2e%2e", b"%2e", b"root", b"root2", b"rootX", b"q", b"SECRET", b"x", b"nosuch", b"..%2f..", b"%2E%2E", b"..hidden", b"..data", b"...", b"config", b"..x",
         # backslashes are ordinary name characters here, never separators
+        b"%EF%BC%8E%EF%BC%8E", b"%E2%80%A5", b"%EF%BC%8E%EF%BC%8E%EF%BC%8FSECRET", b"..%EF%BC%8F..", b"%E2%80%A4%E2%80%A4",
         b"..\\", b"..%5C", b"..%5C..", b"..%5CSECRET", b"%5C", b"sub\\..\\..", b"..%255C.."]
 ABS = [b"@BASE@/p/q/root/", b"@BASE@/p/q/", b"@BASE@/", b"@BASE@/p/q/root2/", b"@BASE@/p/q/rootX/", b"/hx-nonexistent/", b"@BASE@/p/q/root/../"]
 # absolute only after the handler's own decoding: the leading slash is percent-encoded
